@@ -49,7 +49,9 @@ TRUSTED = ["the guarded trace persim.landscapes.exact._VERIF_TRACE is used only 
 # model glue about rejected / out-of-domain inputs are excluded)
 CORE_THEOREMS = ["certifyTol_sound", "certify_sound", "certify_beyond_last", "certify_ordered_vanishing", "hom_deg_selects",
                  "hom_deg_ignores_others", "trailing_inf_removed", "trailing_inf_same_landscape", "exact_never_fuel",
-                 "sweepNoShortcut_correct", "sweep_correct_of_not_fired", "exact_correct_of_not_fired"]
+                 "sweepNoShortcut_correct", "sweep_correct_of_not_fired", "exact_correct_of_not_fired",
+                 "sweep_fired_zero_of_distinct_births", "sweep_correct_of_distinct_births", "exact_correct_of_distinct_births",
+                 "sweep_fired_zero_of_distinct_deaths", "sweep_correct_of_distinct_deaths", "exact_correct_of_distinct_deaths"]
 # integer dtypes: (smallest, largest representable value, scale factors k applied to the lattice coordinates 0..6 — the larger
 # ones make b+d exceed the dtype, where the midpoint wrapped around before /repo fix 56d4899)
 INT_DTYPES = {"int64": (-2 ** 63, 2 ** 63 - 1, [1, 10, 2 ** 40, 2 ** 60]), "int32": (-2 ** 31, 2 ** 31 - 1, [1, 10, 2 ** 20, 2 ** 28]),
@@ -598,7 +600,7 @@ def replay(ctx, rep):
 
 
 MANIFEST = {
-    "text": "21 Lean theorems, of which 12 core (the rest: helper variants, the shortcut counterexample and other concrete "
+    "text": "28 Lean theorems, of which 18 core (the rest: helper variants, the shortcut counterexample and other concrete "
             "instances, model glue for rejected inputs). "
             "Translation validation by a Lean-verified checker, plus a proof about the model of the algorithm. (1) `certify_sound` "
             "(Lean 4, any linear ordered field): whenever the executable checker accepts a diagram and a list of critical pairs, the "
@@ -610,7 +612,12 @@ MANIFEST = {
             "`sweepNoShortcut_correct` / `sweep_correct_of_not_fired`: for EVERY diagram with bars of positive length the line-by-line "
             "Lean model of compute_landscape terminates and, whenever its repeated-bar shortcut does not fire, returns well-formed "
             "critical pairs equal to the landscape for all t and k; the model is compared with the real code on every generated diagram "
-            "(exactly on dyadic input). The known repeated-bar-shortcut defect is a theorem about that model (`shortcut_counterexample`) "
+            "(exactly on dyadic input). `sweep_correct_of_distinct_births` / `sweep_correct_of_distinct_deaths` (and the constructor-level "
+            "`exact_correct_of_distinct_*`): a condition on the INPUT alone, not on the trace - for EVERY diagram with bars of positive "
+            "length whose births are pairwise distinct, or whose deaths are pairwise distinct, the shortcut of the model of the current "
+            "code never fires and its output is well formed and equals the landscape for all t and k; pairwise distinct BARS are not "
+            "enough (`distinct_bars_not_enough`: [(0,4),(2,6),(2,4),(3,5)], a Case-III residual duplicates an original bar). "
+            "The known repeated-bar-shortcut defect is a theorem about that model (`shortcut_counterexample`) "
             "and is reported as KNOWN-FINDING; wrong results are attributed to it only when the guarded trace says the shortcut fired.",
     "note": "Trusted: Lean kernel + Mathlib (axioms propext/Classical.choice/Quot.sound), the harness/protocol, the compiled driver "
             "executable (compiled by Lean's compiler, not checked by the kernel), np.interp as linear interpolation. A diagram with an "
